@@ -46,6 +46,11 @@ pub struct DiskStats {
     pub short_io: u64,
     pub bytes_written: u64,
     pub bytes_read: u64,
+    /// real files written / removed to keep the mirror directory equal to the disk
+    pub mirror_writes: u64,
+    /// files found changed in the mirror directory behind the disk's back and folded in
+    pub bypass_imports: u64,
+    pub metadata_calls: u64,
 }
 
 pub struct SimDisk {
@@ -67,6 +72,10 @@ pub struct SimDisk {
     pub stats: DiskStats,
     /// paths that were created or renamed onto since the last arm_write()
     pub touched: Vec<String>,
+    /// is the mirror directory (see mirror.rs) kept for this disk?
+    mirror: bool,
+    /// what the mirror directory holds, as last written or read by this disk
+    mirrored: BTreeMap<String, Vec<u8>>,
 }
 
 impl SimDisk {
@@ -87,6 +96,99 @@ impl SimDisk {
             eintr_pending: false,
             stats: DiskStats::default(),
             touched: Vec::new(),
+            mirror: false,
+            mirrored: BTreeMap::new(),
+        }
+    }
+
+    /// Keep the process's mirror directory equal to this disk from now on.
+    pub fn enable_mirror(&mut self) {
+        if crate::mirror::root().is_some() {
+            crate::mirror::wipe();
+            self.mirror = true;
+            self.mirrored.clear();
+        }
+    }
+
+    fn real_path(k: &str) -> Option<std::path::PathBuf> {
+        let p = Path::new(k);
+        if k.is_empty() || p.is_absolute() || p.components().any(|c| !matches!(c, std::path::Component::Normal(_))) {
+            return None;
+        }
+        crate::mirror::root().map(|r| r.join(p))
+    }
+
+    /// Make the mirror directory equal to the disk (harness-side changes, finished writes).
+    pub fn settle(&mut self) {
+        if !self.mirror {
+            return;
+        }
+        for (k, f) in &self.files {
+            if self.mirrored.get(k) != Some(&f.bytes) {
+                if let Some(rp) = Self::real_path(k) {
+                    if let Some(parent) = rp.parent() {
+                        let _ = std::fs::create_dir_all(parent);
+                    }
+                    if std::fs::write(&rp, &f.bytes).is_ok() {
+                        self.mirrored.insert(k.clone(), f.bytes.clone());
+                        self.stats.mirror_writes += 1;
+                    }
+                }
+            }
+        }
+        let gone: Vec<String> = self.mirrored.keys().filter(|k| !self.files.contains_key(*k)).cloned().collect();
+        for k in gone {
+            if let Some(rp) = Self::real_path(&k) {
+                let _ = std::fs::remove_file(rp);
+                self.stats.mirror_writes += 1;
+            }
+            self.mirrored.remove(&k);
+        }
+    }
+
+    /// Fold in what was written, changed or removed in the mirror directory without going
+    /// through the seam (code that uses a re-exported `std::fs` item directly).
+    pub fn absorb(&mut self) {
+        if !self.mirror {
+            return;
+        }
+        let Some(root) = crate::mirror::root() else { return };
+        let mut real: BTreeMap<String, Vec<u8>> = BTreeMap::new();
+        if let Ok(rd) = std::fs::read_dir(root) {
+            for e in rd.flatten() {
+                if e.file_type().is_ok_and(|t| t.is_file()) {
+                    if let Ok(b) = std::fs::read(e.path()) {
+                        real.insert(e.file_name().to_string_lossy().into_owned(), b);
+                    }
+                }
+            }
+        }
+        for (k, b) in &real {
+            if self.mirrored.get(k) != Some(b) {
+                let old = self.files.get(k).map(|f| f.bytes.clone());
+                self.files.insert(
+                    k.clone(),
+                    FileState {
+                        bytes: b.clone(),
+                        old,
+                        synced: false,
+                    },
+                );
+                self.touched.push(k.clone());
+                self.mirrored.insert(k.clone(), b.clone());
+                self.stats.bypass_imports += 1;
+            }
+        }
+        let gone: Vec<String> = self
+            .mirrored
+            .keys()
+            .filter(|k| !k.contains('/') && !real.contains_key(*k))
+            .cloned()
+            .collect();
+        for k in gone {
+            self.files.remove(&k);
+            self.mirrored.remove(&k);
+            self.stats.bypass_imports += 1;
         }
     }
 
@@ -95,18 +197,22 @@ impl SimDisk {
         self.fired = false;
         self.accepted = 0;
         self.touched.clear();
+        self.settle();
     }
 
     pub fn arm_read(&mut self, f: RFault) {
         self.rfault = f;
         self.fired = false;
         self.delivered = 0;
+        self.settle();
     }
 
     pub fn disarm(&mut self) {
         self.wfault = WFault::None;
         self.rfault = RFault::None;
         self.handles.clear();
+        self.absorb();
+        self.settle();
     }
 
     pub fn content(&self, path: &str) -> Option<&[u8]> {
@@ -122,6 +228,7 @@ impl SimDisk {
                 synced: true,
             },
         );
+        self.settle();
     }
 
     /// The process is gone: open handles vanish. Returns the paths that were un-synced.
@@ -183,7 +290,13 @@ impl SimDisk {
     }
 }
 
+/// The disk's name of a path: relative to the mirror directory, without `./`.
 fn key(p: &Path) -> String {
+    let p = match crate::mirror::root() {
+        Some(r) => p.strip_prefix(r).unwrap_or(p),
+        None => p,
+    };
+    let p = p.strip_prefix(".").unwrap_or(p);
     p.to_string_lossy().into_owned()
 }
 
@@ -199,6 +312,9 @@ impl Disk for SimDisk {
             return Err(err(libc::EACCES));
         }
         let k = key(path);
+        if self.mirror && !self.files.contains_key(&k) {
+            self.absorb();
+        }
         self.touched.push(k.clone());
         let old = self.files.get(&k).map(|f| f.bytes.clone());
         self.files.insert(
@@ -219,7 +335,66 @@ impl Disk for SimDisk {
                 pos: 0,
             },
         );
+        self.settle();
         Ok(h)
+    }
+
+    fn create_new(&mut self, path: &Path) -> io::Result<u64> {
+        let k = key(path);
+        if self.mirror && !self.files.contains_key(&k) {
+            self.absorb();
+        }
+        if self.files.contains_key(&k) && self.wfault != WFault::OpenFail {
+            self.stats.creates += 1;
+            return Err(err(libc::EEXIST));
+        }
+        self.create(path)
+    }
+
+    fn metadata(&mut self, handle: u64) -> io::Result<std::fs::Metadata> {
+        self.stats.metadata_calls += 1;
+        let Some(h) = self.handles.get(&handle).cloned() else {
+            return Err(err(libc::EBADF));
+        };
+        if !self.mirror {
+            return Err(io::Error::from(io::ErrorKind::Unsupported));
+        }
+        self.settle();
+        match Self::real_path(&h.path) {
+            Some(rp) => std::fs::metadata(rp),
+            None => Err(io::Error::from(io::ErrorKind::Unsupported)),
+        }
+    }
+
+    fn set_len(&mut self, handle: u64, size: u64) -> io::Result<()> {
+        let Some(h) = self.handles.get(&handle).cloned() else {
+            return Err(err(libc::EBADF));
+        };
+        if h.mode != Mode::Write {
+            return Err(err(libc::EINVAL));
+        }
+        let f = self.files.get_mut(&h.path).ok_or_else(|| err(libc::EIO))?;
+        f.bytes.resize(size as usize, 0);
+        f.synced = false;
+        self.settle();
+        Ok(())
+    }
+
+    fn seek(&mut self, handle: u64, pos: io::SeekFrom) -> io::Result<u64> {
+        let Some(h) = self.handles.get(&handle).cloned() else {
+            return Err(err(libc::EBADF));
+        };
+        let len = self.files.get(&h.path).map_or(0, |f| f.bytes.len()) as i128;
+        let to: i128 = match pos {
+            io::SeekFrom::Start(n) => i128::from(n),
+            io::SeekFrom::End(d) => len + i128::from(d),
+            io::SeekFrom::Current(d) => h.pos as i128 + i128::from(d),
+        };
+        if to < 0 {
+            return Err(err(libc::EINVAL));
+        }
+        self.handles.get_mut(&handle).unwrap().pos = to as usize;
+        Ok(to as u64)
     }
 
     fn open(&mut self, path: &Path) -> io::Result<u64> {
@@ -228,6 +403,9 @@ impl Disk for SimDisk {
         if self.rfault == RFault::Enoent {
             self.fired = true;
             return Err(err(libc::ENOENT));
+        }
+        if self.mirror && !self.files.contains_key(&k) {
+            self.absorb();
         }
         if !self.files.contains_key(&k) {
             return Err(err(libc::ENOENT));
@@ -273,6 +451,7 @@ impl Disk for SimDisk {
             let room = limit.saturating_sub(self.accepted);
             if room == 0 {
                 self.fired = true;
+                self.settle();
                 if matches!(self.wfault, WFault::CrashMid(_)) {
                     std::panic::resume_unwind(Box::new(SimCrash));
                 }
@@ -340,15 +519,23 @@ impl Disk for SimDisk {
             f.synced = true;
             f.old = None;
         }
+        self.settle();
         Ok(())
     }
 
     fn close(&mut self, handle: u64) {
-        self.handles.remove(&handle);
+        if let Some(h) = self.handles.remove(&handle) {
+            if h.mode == Mode::Write {
+                self.settle();
+            }
+        }
     }
 
     fn rename(&mut self, from: &Path, to: &Path) -> io::Result<()> {
         self.stats.renames += 1;
+        if self.mirror && !self.files.contains_key(&key(from)) {
+            self.absorb();
+        }
         let Some(f) = self.files.remove(&key(from)) else {
             return Err(err(libc::ENOENT));
         };
@@ -362,12 +549,19 @@ impl Disk for SimDisk {
                 synced: f.synced,
             },
         );
+        self.settle();
         Ok(())
     }
 
     fn remove(&mut self, path: &Path) -> io::Result<()> {
+        if self.mirror && !self.files.contains_key(&key(path)) {
+            self.absorb();
+        }
         match self.files.remove(&key(path)) {
-            Some(_) => Ok(()),
+            Some(_) => {
+                self.settle();
+                Ok(())
+            }
             None => Err(err(libc::ENOENT)),
         }
     }
